@@ -197,6 +197,7 @@ fn has_unsat_ca(c: &CA) -> bool {
     }
 }
 
+#[allow(dead_code)]
 fn has_leaf_ca(c: &CA, l: &A) -> bool {
     match c {
         CA::Leaf(x) => x == l,
@@ -236,12 +237,16 @@ struct Ctx<'a> {
     seen: BTreeSet<String>,
     parse_same: u64,
     parse_unparseable: u64,
+    slice: u64,
 }
 
 impl<'a> Ctx<'a> {
     /// every single-policy op on one abstract policy; `ages` / `locks`: how many of the lock
     /// parameters to try
     fn abstract_ops(&mut self, a: &A, n_ages: usize, judge: bool) {
+        // a thin deterministic slice of every policy size gets ALL ages / lock times
+        self.slice += 1;
+        let n_ages = if self.slice % 16 == 0 { AGES.len().max(LOCKTIMES.len()) } else { n_ages };
         let ages: Vec<u32> = AGES.iter().copied().take(n_ages).collect();
         let lts: Vec<u32> = LOCKTIMES.iter().copied().take(n_ages).collect();
         self.abstract_ops_with(a, &ages, &lts, judge)
@@ -301,6 +306,17 @@ impl<'a> Ctx<'a> {
         let nk = or_panic(guard(|| p.n_keys().to_string()));
         self.out.line(&format!("C nkeys {}", w), &nk);
         if judge { self.out.line(&format!("J nkeys {} {}", w, nk), "ok"); }
+        // lock lists and constant tests (anchor functions of semantic.rs)
+        let show = |v: Vec<u32>| if v.is_empty() { "-".to_string() } else { v.iter().map(|x| x.to_string()).collect::<Vec<_>>().join(",") };
+        let rtl = or_panic(guard(|| show(p.relative_timelocks())));
+        let atl = or_panic(guard(|| show(p.absolute_timelocks())));
+        self.out.line(&format!("C rtl {}", w), &rtl);
+        self.out.line(&format!("C atl {}", w), &atl);
+        self.nopanic("rtl", &w, &rtl);
+        self.nopanic("atl", &w, &atl);
+        if judge && rtl != "PANIC" && atl != "PANIC" { self.out.line(&format!("J locks {} {} {}", w, rtl, atl), "ok"); }
+        self.out.line(&format!("C isconst {}", w),
+            &or_panic(guard(|| format!("{}{}", p.is_trivial() as u8, p.is_unsatisfiable() as u8))));
         let mut locks = vec![];
         atoms_a(a, &mut locks);
         let has_older = locks.iter().any(|x| matches!(x, A::Older(_)));
@@ -375,21 +391,26 @@ impl<'a> Ctx<'a> {
         let nm = or_panic(guard(|| { let (s, m) = p.is_safe_nonmalleable(); format!("{}{}", s as u8, m as u8) }));
         self.out.line(&format!("C safenm {}", w), &nm);
         self.nopanic("safenm", &w, &nm);
-        let has_triv = has_leaf_ca(c, &A::Triv);
-        // is_safe_nonmalleable is not part of C18's statement: the judges below run only on the
-        // classes where the library agrees with the specification today; the two classes where it
-        // does not are OBSERVATIONS (counted, never judged; the `C safenm` line still covers them)
-        if small && !has_triv {
+        let dup = or_panic(guard(|| if p.check_duplicate_keys().is_ok() { "ok".to_string() } else { "dup".into() }));
+        self.out.line(&format!("C cdup {}", w), &dup);
+        self.out.line(&format!("J cdup {} {}", w, dup), "ok");
+        self.nopanic("cdup", &w, &dup);
+        let valid = or_panic(guard(|| match p.is_valid() {
+            Ok(()) => "ok".to_string(),
+            Err(miniscript::policy::concrete::PolicyError::HeightTimelockCombination) => "timelock".into(),
+            Err(miniscript::policy::concrete::PolicyError::DuplicatePubKeys) => "dup".into(),
+        }));
+        self.out.line(&format!("C cvalid {}", w), &valid);
+        self.nopanic("cvalid", &w, &valid);
+        // is_safe_nonmalleable is not part of C18's statement: the judges below run on the classes
+        // where the library agrees with the specification today; the class where it does not
+        // (`or` with more than two branches) is an OBSERVATION (counted; `C safenm` still covers it)
+        if small {
             // `signed` <=> every satisfaction needs a signature
             self.out.line(&format!("J safe {} {}", w, nm), "ok");
-        } else if small {
-            self.out.count("observation: is_safe_nonmalleable on a policy containing TRIVIAL (TRIVIAL is flagged signed) - not judged");
-            if w == "or(1@pk(0),1@TRIVIAL)" || w == "or(1@older(1),1@TRIVIAL)" || w == "TRIVIAL" {
-                self.out.note(&format!("observation_safenm_{}", w), format!("is_safe_nonmalleable = {} (signed, non-malleable)", nm));
-            }
         }
         let distinct = ats.iter().collect::<BTreeSet<_>>().len() == ats.len();
-        if ats.len() <= 8 && distinct && !has_triv {
+        if ats.len() <= 8 && distinct {
             if max_or_arity(c) <= 2 {
                 // `non-malleable` claimed => semantically non-malleable (atoms pairwise distinct)
                 self.out.line(&format!("J nonmall-sound {} {}", w, nm), "ok");
@@ -456,7 +477,7 @@ pub fn run(out: &mut Out, thorough: bool, seed: u64) {
     let hook = std::panic::take_hook();
     std::panic::set_hook(Box::new(|_| {}));
     let mut rng = Rng(seed ^ 0xC18);
-    let mut cx = Ctx { out, seen: BTreeSet::new(), parse_same: 0, parse_unparseable: 0 };
+    let mut cx = Ctx { out, seen: BTreeSet::new(), parse_same: 0, parse_unparseable: 0, slice: 0 };
 
     // ---- leaf alphabets
     let full: Vec<A> = vec![
@@ -518,9 +539,35 @@ pub fn run(out: &mut Out, thorough: bool, seed: u64) {
         let a = rand_a(&mut rng, 3, &twins, 4);
         cx.abstract_ops_with(&a, &twin_ages, &twin_lts, true);
     }
+    // every hash kind, two hashes per kind: siblings of the same kind, different kinds, inside
+    // thresholds (variant-name order and the per-kind `Ord` arms; `sorted` / sortcanon)
+    let hashes: Vec<A> = (0..4u8).flat_map(|k| [A::Hash(k, 0), A::Hash(k, 1)]).collect();
+    let hash_alpha: Vec<A> = hashes.iter().cloned().chain([A::Key(0), A::Older(1), A::After(144)]).collect();
+    for l in hashes.iter() { cx.abstract_ops(l, 2, true); }
+    for n in 1..=2 {
+        let mut v = vec![];
+        all_thresh(&hash_alpha, n, &mut |a| v.push(a));
+        for a in v { cx.abstract_ops(&a, 2, true); }
+    }
+    for _ in 0..(if thorough { 6000 } else { 600 }) {
+        let a = rand_a(&mut rng, 3, &hash_alpha, 4);
+        cx.abstract_ops(&a, 2, true);
+    }
+    // repeated locks and keys, locks inside unsatisfiable branches (lock lists, n_keys)
+    let rep: Vec<A> = vec![A::Older(144), A::Older(1), A::After(9), A::After(500000001), A::Key(0), A::Unsat, A::Triv];
+    for _ in 0..(if thorough { 3000 } else { 400 }) {
+        let a = rand_a(&mut rng, 3, &rep, 5);
+        cx.abstract_ops(&a, 2, true);
+    }
+    for a in [
+        A::Thresh(2, vec![A::Older(144), A::Older(144), A::Older(1)]),
+        A::Thresh(2, vec![A::Unsat, A::Thresh(2, vec![A::Older(5), A::After(7)])]),
+        A::Thresh(1, vec![A::After(9), A::Thresh(2, vec![A::After(9), A::After(500000001), A::After(9)])]),
+    ] { cx.abstract_ops(&a, 12, true); }
     // ---- 2. random deeper policies (repeated atoms, wide thresholds)
     let deep_leaves: Vec<A> = vec![
         A::Key(0), A::Key(1), A::Key(2), A::Key(3), A::Hash(0, 0), A::Hash(3, 1),
+        A::Hash(1, 0), A::Hash(1, 1), A::Hash(2, 0), A::Hash(2, 1), A::Hash(0, 1), A::Hash(3, 0),
         A::Older(1), A::Older(4194305), A::Older(65680), A::After(144), A::After(500000001),
         A::Triv, A::Unsat,
     ];
@@ -543,6 +590,11 @@ pub fn run(out: &mut Out, thorough: bool, seed: u64) {
     let mut es: Vec<A> = e_leaves.clone();
     for n in 1..=(if thorough { 3 } else { 2 }) { all_thresh(&e_tiny, n, &mut |a| es.push(a)); }
     all_thresh(&[A::Key(0), A::Key(1), A::Key(2)], 3, &mut |a| es.push(a));
+    // hash / after / time-older atoms, two different locks of one kind (atoms are independent:
+    // after(144) does NOT entail after(1)); thresholds whose first child is a lock or a hash
+    let e_locks: Vec<A> = vec![A::After(1), A::After(144), A::Older(4194305), A::Hash(1, 0)];
+    es.extend(e_locks.iter().cloned());
+    all_thresh(&[A::After(1), A::After(144), A::Hash(1, 0), A::Key(0)], 2, &mut |a| es.push(a));
     for a in es.iter() { for b in es.iter() { cx.entails_ops(a, b, false); } }
     // (b) un-normalised inputs with hidden constants (the former F6 witnesses)
     let un: Vec<A> = vec![
@@ -575,6 +627,32 @@ pub fn run(out: &mut Out, thorough: bool, seed: u64) {
         }
     }
 
+    // (e) the same bound with mixed atoms, constants and nesting: constants do not count,
+    //     every other leaf does, at any depth
+    let mix: Vec<A> = vec![A::Key(0), A::Hash(0, 0), A::After(144), A::Older(1), A::Key(1), A::Hash(2, 1)];
+    for n in [19usize, 20, 21] {
+        // n terminals: groups of three inside nested thresholds, padded with constants
+        let mut subs: Vec<A> = vec![A::Triv, A::Unsat];
+        let mut left = n;
+        let mut i = 0;
+        while left > 0 {
+            let g = left.min(3);
+            let mut inner: Vec<A> = (0..g).map(|j| mix[(i + j) % mix.len()].clone()).collect();
+            inner.push(if i % 2 == 0 { A::Unsat } else { A::Triv });
+            subs.push(A::Thresh(1 + (i % g), inner));
+            left -= g;
+            i += 1;
+        }
+        subs.push(A::Thresh(1, vec![A::Triv, A::Unsat]));
+        for k in [1usize, 2, subs.len()] {
+            let big = A::Thresh(k, subs.clone());
+            cx.entails_ops(&big, &A::Key(0), false);
+            cx.entails_ops(&big, &big, false);
+            cx.entails_ops(&big, &A::Thresh(1, mix.clone()), false);
+            cx.entails_ops(&A::Hash(0, 0), &big, false);
+        }
+    }
+
     // ---- 4. concrete policies: lift, check_timelocks
     let c_leaves: Vec<A> = vec![
         A::Key(0), A::Key(1), A::Older(1), A::Older(4194305), A::After(1), A::After(500000001),
@@ -600,7 +678,7 @@ pub fn run(out: &mut Out, thorough: bool, seed: u64) {
             CA::And(vec![CA::Leaf(A::After(1)), CA::Leaf(A::After(500000001))])])]),
         // still refused, rightly: a satisfiable mixed path next to UNSATISFIABLE
         CA::Thresh(2, vec![o1.clone(), ot.clone(), un_.clone()]),
-        // is_safe_nonmalleable observations (C lines only): TRIVIAL counts as `signed`; three-branch `or`
+        // is_safe_nonmalleable: TRIVIAL (judged since the repair) and the three-branch `or` observation
         CA::Leaf(A::Triv),
         CA::Or(vec![(1, k0.clone()), (1, CA::Leaf(A::Triv))]),
         CA::Thresh(1, vec![k0.clone(), CA::Leaf(A::Triv)]),
@@ -651,6 +729,44 @@ pub fn run(out: &mut Out, thorough: bool, seed: u64) {
         let c = rand_ca(&mut rng, 4, &c_leaves, true);
         cx.concrete_ops(&c, false);
     }
+
+    // hash atoms of every kind in concrete policies (lift keeps the kind; timelock_info `_` arm)
+    let ch: Vec<A> = vec![A::Hash(0, 0), A::Hash(1, 1), A::Hash(2, 2), A::Hash(3, 3), A::Hash(3, 2), A::Hash(2, 3),
+        A::Key(0), A::Older(1), A::After(1)];
+    let chl: Vec<CA> = ch.iter().cloned().map(CA::Leaf).collect();
+    for l in chl.iter() { cx.concrete_ops(l, false); }
+    for x in chl.iter() { for y in chl.iter() {
+        cx.concrete_ops(&CA::And(vec![x.clone(), y.clone()]), false);
+        cx.concrete_ops(&CA::Or(vec![(1, x.clone()), (2, y.clone())]), false);
+        cx.concrete_ops(&CA::Thresh(1, vec![x.clone(), y.clone(), k1.clone()]), false);
+    } }
+    let c_leaves_h: Vec<A> = c_leaves.iter().cloned().chain(ch.iter().cloned()).collect();
+    for _ in 0..(if thorough { 10000 } else { 800 }) {
+        let c = rand_ca(&mut rng, 3, &c_leaves_h, true);
+        cx.concrete_ops(&c, false);
+    }
+    // lock classification at the unit edges: after 499999999 | 500000000, the largest absolute
+    // lock, older with the value bits full, with non-consensus bits, time flag + other bits
+    let edge: Vec<A> = vec![
+        A::After(499999999), A::After(500000000), A::After(2147483647), A::After(1),
+        A::Older(65535), A::Older(65541), A::Older(4194304 + 65536 + 1), A::Older(1), A::Older(4194305),
+        A::Key(0),
+    ];
+    let el: Vec<CA> = edge.iter().cloned().map(CA::Leaf).collect();
+    for l in el.iter() { cx.concrete_ops(l, false); }
+    for x in el.iter() { for y in el.iter() {
+        cx.concrete_ops(&CA::And(vec![x.clone(), y.clone()]), false);
+        cx.concrete_ops(&CA::Thresh(2, vec![x.clone(), y.clone(), k1.clone()]), false);
+        cx.concrete_ops(&CA::Or(vec![(1, x.clone()), (1, y.clone())]), false);
+    } }
+    // repeated keys (check_duplicate_keys / is_valid), also next to a timelock mix
+    for c in [
+        CA::And(vec![k0.clone(), k0.clone()]),
+        CA::Or(vec![(1, k0.clone()), (1, CA::And(vec![k1.clone(), k0.clone()]))]),
+        CA::Thresh(2, vec![k0.clone(), k1.clone(), k2.clone()]),
+        CA::And(vec![CA::And(vec![o1.clone(), ot.clone()]), CA::And(vec![k0.clone(), k0.clone()])]),
+        CA::Thresh(1, vec![k2.clone(), CA::Thresh(2, vec![k1.clone(), k2.clone()])]),
+    ] { cx.concrete_ops(&c, false); }
 
     let (same, unp) = (cx.parse_same, cx.parse_unparseable);
     let n_abs = cx.seen.iter().filter(|s| !s.starts_with("c:")).count();
